@@ -149,7 +149,34 @@ func boundEnc(b orb.Bound) []int {
 	if b.IsEmpty() {
 		return []int{}
 	}
-	return []int{int(b.Min[0]), int(b.Min[1]), int(b.Max[0]), int(b.Max[1])}
+	return []int{int(c06Un(b.Min[0])), int(c06Un(b.Min[1])), int(c06Un(b.Max[0])), int(c06Un(b.Max[1]))}
+}
+
+// The box operations only compare coordinates, so they commute with any strictly increasing map of the coordinate
+// axis. c06St is such a map that sends the ends of the small integer lattice to the ends of the float64 range: 4 to
+// +Inf (an unbounded box: a half plane, the whole plane) or to the largest finite value, 3 to 1e300. c06Un is its
+// inverse; the model keeps seeing the lattice.
+func c06St(mode int, x float64) float64 {
+	a := math.Abs(x)
+	switch {
+	case mode == 1 && a == 4:
+		return math.Copysign(math.Inf(1), x)
+	case mode == 2 && a == 4:
+		return math.Copysign(math.MaxFloat64, x)
+	case mode == 2 && a == 3:
+		return math.Copysign(1e300, x)
+	}
+	return x
+}
+
+func c06Un(x float64) float64 {
+	switch a := math.Abs(x); {
+	case math.IsInf(x, 0) || a == math.MaxFloat64:
+		return math.Copysign(4, x)
+	case a == 1e300:
+		return math.Copysign(3, x)
+	}
+	return x
 }
 
 // c06Shapes: degenerate-rich shapes over small integer coordinates.
@@ -421,7 +448,9 @@ func init() {
 				if g == nil {
 					continue
 				}
-				site := guard(func() { e["b"] = boundEnc(g.Bound()) })
+				mode := []int{0, 0, 0, 1, 2}[c.rng.Intn(5)]
+				gs := mapGeom(g, func(p orb.Point) orb.Point { return orb.Point{c06St(mode, p[0]), c06St(mode, p[1])} })
+				site := guard(func() { e["b"] = boundEnc(gs.Bound()) })
 				if site != "" {
 					c.emit(panicEvent("Bound", site, gm))
 					continue
@@ -459,6 +488,11 @@ func init() {
 				a, b, cc := mk(), mk(), mk()
 				p := orb.Point{float64(c.rng.Intn(9) - 4), float64(c.rng.Intn(9) - 4)}
 				e := map[string]interface{}{"k": "bop", "a": boundEnc(a), "b": boundEnc(b), "c": boundEnc(cc), "p": []int{int(p[0]), int(p[1])}, "nt": 1}
+				if mode := []int{0, 0, 0, 1, 2}[c.rng.Intn(5)]; mode != 0 { // the same figure with its outermost lines at infinity
+					sp := func(q orb.Point) orb.Point { return orb.Point{c06St(mode, q[0]), c06St(mode, q[1])} }
+					sb := func(x orb.Bound) orb.Bound { return orb.Bound{Min: sp(x.Min), Max: sp(x.Max)} }
+					a, b, cc, p = sb(a), sb(b), sb(cc), sp(p)
+				}
 				setCurrent("Bound methods", e)
 				site := guard(func() {
 					e["uab"], e["uba"] = boundEnc(a.Union(b)), boundEnc(b.Union(a))
@@ -522,6 +556,36 @@ func init() {
 					e2["ofar"] = int(far.Orientation())
 					far.Reverse()
 					e2["ofarrev"] = int(far.Orientation())
+					// a ring that reads the same in both directions (out to two arbitrary points and back the same way) is its
+					// own reverse, so its orientation is its own negative: none - whatever the coordinates
+					dec := func() orb.Point {
+						return orb.Point{float64(c.rng.Intn(4000)-2000) / 10, float64(c.rng.Intn(4000)-2000) / []float64{10, 3, 7, 1e7}[c.rng.Intn(4)]}
+					}
+					pa, pb, pc := dec(), dec(), dec()
+					pal := orb.Ring{pa, pb, pc, pb, pa}
+					if c.rng.Intn(2) == 0 {
+						pal = pal[:4]
+					}
+					e2["opal"] = int(pal.Orientation())
+					// the ring with every edge cut into 32 or 64 equal parts (exact: the figure is scaled by 64 first), started
+					// anywhere: hundreds of vertices, wound the same way
+					e2["olong"] = e2["o"]
+					if base := ls; len(base) >= 3 {
+						m := []int{32, 64}[c.rng.Intn(2)]
+						long := orb.Ring{}
+						for j := range base {
+							p, q := base[j], base[(j+1)%len(base)]
+							for t := 0; t < m; t++ {
+								long = append(long, orb.Point{p[0]*64 + (q[0]-p[0])*float64(64/m*t), p[1]*64 + (q[1]-p[1])*float64(64/m*t)})
+							}
+						}
+						s := c.rng.Intn(len(long))
+						long = append(append(orb.Ring{}, long[s:]...), long[:s]...)
+						if c.rng.Intn(2) == 0 {
+							long = append(long, long[0])
+						}
+						e2["olong"] = int(long.Orientation())
+					}
 				})
 				if site != "" {
 					c.emit(panicEvent("Ring.Orientation", site, e2))
